@@ -325,6 +325,9 @@ def make_err_judge(name, line, tre, tim, var, fmt, region, counters):
                         e = np.where(np.isnan(tv), 0.0, np.where(np.isnan(e), np.inf, e))
                         e = np.where(np.isinf(pv) & np.isinf(tv) & (pv == tv), 0.0, e)
                         e = np.where((np.abs(tv) >= L) & np.isinf(pv), 0.0, e)
+                        # an overflowed result stands for the next power of two: a true value a few ULP below the largest float may round there
+                        ovf = np.isinf(pv) & (np.abs(tv) < L) & (np.sign(pv) == np.sign(tv))
+                        e = np.where(ovf, (LD(2.0) ** int(np.finfo(fmt.ft).maxexp) - np.abs(tv)) / (L * LD(2.0 ** (1 - fmt.p))), e)
                         e = np.where((tv == 0) & (np.abs(pv) <= LD(fmt.tiny) * 16), 0.0, e)
                     worst = np.maximum(worst, e.astype(np.float64))
                 best = np.minimum(best, worst)
@@ -526,6 +529,9 @@ def _analyse_plane(root, ctype, name, tier):
                         e = np.where(np.isnan(tv), 0.0, np.where(np.isnan(e), np.inf, e))
                         e = np.where(np.isinf(pv) & np.isinf(tv) & (pv == tv), 0.0, e)
                         e = np.where((np.abs(tv) >= L) & np.isinf(pv), 0.0, e)
+                        # an overflowed result stands for the next power of two: a true value a few ULP below the largest float may round there
+                        ovf = np.isinf(pv) & (np.abs(tv) < L) & (np.sign(pv) == np.sign(tv))
+                        e = np.where(ovf, (LD(2.0) ** int(np.finfo(fmt.ft).maxexp) - np.abs(tv)) / (L * LD(2.0 ** (1 - fmt.p))), e)
                     worst = np.maximum(worst, e.astype(np.float64))
                 errs = worst
                 okp = cand & (worst <= POINT_ULP)
